@@ -603,7 +603,7 @@ Print Assumptions c12_code_decoder_err.
 
 (** The same for the whole translated [BodyReader::read] (all four framings, outer chunked loop included): from every
     between-calls reader, on any bytes and any output buffer, the code never panics. *)
-From Hoot.proofs Require Import Gen2_equiv_body Gen2_equiv_reader_chunked Gen2_transport.
+From Hoot.proofs Require Import Gen2_equiv_rel Gen2_equiv_reader Gen2_equiv_reader_chunked Gen2_equiv_reader_all Gen2_transport_read.
 Theorem c12_code_read_no_panic : forall r src dst stop s,
   reader_ok r -> limit_fits r src dst -> gen_br_read r src dst stop <> Panic s.
 Proof.
@@ -612,3 +612,13 @@ Proof.
   pose proof (c12_read r src (len dst) stop Hok) as H. rewrite Hm in H. exact H.
 Qed.
 Print Assumptions c12_code_read_no_panic.
+
+(** One level up: [Call<RecvBody>::read] of src/client/call.rs (the reader taken out of its option, the ended short-circuit, then
+    [BodyReader::read]), translated on every run ([gen_call_read]), corresponds to the model's [call_read]
+    (proofs/Gen2_equiv_call2.v): same reader afterwards, same counts, the output at the front of the buffer and nothing else touched. *)
+From Hoot.proofs Require Import Gen2_equiv_call2_read.
+Theorem c12_code_call_read : forall c input dst,
+  match c_reader c with Some r => limit_fits r input dst | None => True end ->
+  crd_rel dst (gen_call_read (c_reader c) (c_stop c) input dst) (call_read c input (len dst)).
+Proof. exact gen_call_read_equiv. Qed.
+Print Assumptions c12_code_call_read.
